@@ -105,7 +105,7 @@ SERVERS = [['falconframework.org', 80], ['falconframework.org', 443], ['falconfr
            ['single', 81]]
 CLIENTS = [['127.0.0.1', 51234], ['203.0.113.7', 40000], ['10.0.0.1', 1], ['2001:db8::9', 55555], None,
            ['198.51.100.9', 1025]]
-ROOTS = ['', '', '/api', '/a/b', '/v1']
+ROOTS = ['', '', '/api', '/a/b', '/v1', '/api/']
 METHODS = ['GET', 'POST', 'PUT', 'DELETE', 'HEAD', 'OPTIONS', 'PATCH', 'FOO', 'CONNECT', 'TRACE', 'WEBSOCKET', 'CHECKIN']
 
 JSON_BODIES = ['{"a": 1}', '[1, 2, 3]', '{"k": "caf\xc3\xa9", "n": null, "l": [true, 1.5, "x"]}', '"s"', '0', 'null',
@@ -150,7 +150,7 @@ BODIES = [['none'], ['text', 'hello'], ['text', 'café € \U0001f600'], ['text'
           ['stream', 'gen', ['ab', 'cd', ''], None], ['stream', 'iter', ['x' * 10, 'y'], None], ['stream', 'file', ['f' * 20000], None],
           ['stream', 'set_stream', ['0123456789'], 10], ['stream', 'list', ['p', 'q'], None], ['stream', 'gen', [], None],
           ['stream', 'file', [''], None], ['stream+text', 'gen', ['s'], 'T'], ['stream', 'file_noclose', ['zz' * 10], None],
-          ['stream', 'set_stream', ['01234'], 3]]
+          ['stream', 'set_stream', ['01234'], 3], ['stream', 'gen', ['ab', '', 'cd'], None], ['stream', 'iter', ['', 'x', '', 'y'], None]]
 CONTENT_TYPES = [None, 'text/plain', 'application/json', 'text/html; charset=utf-8', 'application/x-nope',
                  'application/msgpack', '', 'application/x-www-form-urlencoded']
 HDR_OPS = [
@@ -328,7 +328,7 @@ def families(tier, ua):
             for client in CLIENTS:
                 for hv in ('1.1', '1.0'):
                     yield 'E3.conn', mk(ua, target='/items', scheme=scheme, server=server, client=client,
-                                        http_version=hv, root_path='/api' if server[1] == 8080 else '')
+                                        http_version=hv, root_path=ROOTS[(server[1] + len(server[0])) % len(ROOTS)])
     # E4 bodies x content types x read modes
     for ct in HEADER_POOL['Content-Type']:
         bodies = body_for(ct)
@@ -387,7 +387,7 @@ def families(tier, ua):
     # E6 simulator argument styles
     styles = [{'explicit_host': True}, {'explicit_port': True}, {'explicit_remote': True}, {'empty_root_arg': True},
               {'empty_query_arg': True}, {'empty_body_arg': True}, {'content_type_param': True}, {'cookies_param': True},
-              {'headers_as_dict': True}, {'explicit_cl': True}]
+              {'headers_as_dict': True}, {'explicit_cl': True}, {'content_type_conflict': True}, {'json_param': True}]
     for stl in styles:
         for m in ('GET', 'POST', 'OPTIONS'):
             for body in ('', '{"a": 1}'):
@@ -548,7 +548,7 @@ def rand_request(rng, ua):
     if want_sim:
         style = {}
         for k in ('explicit_host', 'explicit_port', 'explicit_remote', 'empty_root_arg', 'empty_query_arg', 'empty_body_arg',
-                  'content_type_param', 'cookies_param', 'headers_as_dict', 'explicit_cl'):
+                  'content_type_param', 'cookies_param', 'headers_as_dict', 'explicit_cl', 'content_type_conflict', 'json_param'):
             if rng.random() < 0.12:
                 style[k] = True
         with_sim(req, ua, style)
